@@ -6,7 +6,7 @@
    (coq/MachineOpsCover.v: for every operation either the listing value that covers it or an explicit exclusion with a reason
    from a closed enumeration) and the rule [ops_covered_b] that the two must satisfy.  Definitions only; proofs in
    MachineOpsProofs.v, statements in Properties_C07_listing.v. *)
-From Coq Require Import List String Bool Arith.
+From Coq Require Import List String Ascii Bool Arith.
 Import ListNotations.
 Require Import CV.RowLegMachine.
 Local Open Scope string_scope.
@@ -29,8 +29,10 @@ Inductive opk :=
 (* one operation: kind, result type, normalised source text, occurrence number among the identical (kind, type, text)
    triples of the same function (in source order) *)
 Record mop := mkOp { o_kind : opk; o_ty : mty; o_text : string; o_occ : nat }.
-(* one function: the listing file that transcribes it, its qualified name, its operations in source order *)
-Record mfun := mkF { f_listing : string; f_name : string; f_ops : list mop }.
+(* one function: the listing file that transcribes it, its qualified name (an overloaded or instantiated name is followed by its
+   parameter types), its operations in source order, and the qualified names (without parameter types) of the functions declared in
+   the repo's own code that its body calls *)
+Record mfun := mkF { f_listing : string; f_name : string; f_ops : list mop; f_calls : list string }.
 
 (* ---------- the hand-written side *)
 Inductive reason :=
@@ -41,6 +43,8 @@ Inductive reason :=
   | EUnreachableInModel   (* a path that the configuration modelled by the listing never takes (named in the text of the entry) *)
   | EFloatInput           (* float -> integer conversion whose RESULT is an input of the listing with a stated range (not proved) *)
   | ECheckOnly            (* part of a consistency check / report that the placement path does not execute *)
+  | ECoveredElsewhere     (* not a machine-integer listing value, but a theorem of another property file (named in the text) proves
+                             that the conversion / operation is defined on a stated domain *)
   | ENotListed.           (* overflow-capable, executed, and NOT covered by any listed value: an open gap, named in design/C07.md *)
 
 Inductive cov :=
@@ -51,8 +55,10 @@ Inductive cov :=
 
 Record centry := mkC { c_kind : opk; c_ty : mty; c_text : string; c_occ : nat; c_cov : cov }.
 Record cfun := mkCF { cf_listing : string; cf_name : string; cf_entries : list centry }.
-(* [cv_samples]: for each listing function referred to, the list of the C types of its values on a sample input *)
-Record cover := mkCover { cv_samples : list (string * list cty); cv_funs : list cfun }.
+(* [cv_samples]: for each listing function referred to, the list of the C types of its values on a sample input.
+   [cv_callees] (callees_not_inlined): the functions of the repo that a function of the table calls and that are deliberately NOT in
+   the table, each with a one-line reason *)
+Record cover := mkCover { cv_samples : list (string * list cty); cv_funs : list cfun; cv_callees : list (string * string) }.
 
 (* ---------- decidable equalities *)
 Definition mty_eqb (a b : mty) : bool :=
@@ -127,10 +133,27 @@ Definition fun_okb (c : cover) (f : mfun) (g : cfun) : bool :=
   String.eqb (f_listing f) (cf_listing g) && String.eqb (f_name f) (cf_name g)
   && forall2b (entry_okb c) (f_ops f) (cf_entries g).
 
+(* the name of a function without its parameter types: "K::f(int)" -> "K::f" *)
+Fixpoint base_name (s : string) : string :=
+  match s with
+  | EmptyString => EmptyString
+  | String ch r => if Ascii.eqb ch "("%char then EmptyString else String ch (base_name r)
+  end.
+
+Definition smem (s : string) (l : list string) : bool := existsb (String.eqb s) l.
+Definition table_names (t : list mfun) : list string := map (fun f => base_name (f_name f)) t.
+
+(* callee closure: every function of the repo that a function of the table calls is itself a function of the table (under some
+   listing) or is named in [cv_callees]; and no entry of [cv_callees] is stale (each is called by a function of the table and is
+   not in the table) *)
+Definition calls_okb (t : list mfun) (c : cover) : bool :=
+  forallb (fun f => forallb (fun n => smem n (table_names t) || smem n (map fst (cv_callees c))) (f_calls f)) t
+  && forallb (fun p => existsb (fun f => smem (fst p) (f_calls f)) t && negb (smem (fst p) (table_names t))) (cv_callees c).
+
 (* the generated table and the cover list the same functions in the same order (sorted by listing, then name), each with
    the same operations in the same (source) order: every generated operation is matched by exactly one cover entry and no
-   cover entry is left over *)
-Definition ops_covered_b (t : list mfun) (c : cover) : bool := forall2b (fun_okb c) t (cv_funs c).
+   cover entry is left over; and the callee closure holds *)
+Definition ops_covered_b (t : list mfun) (c : cover) : bool := forall2b (fun_okb c) t (cv_funs c) && calls_okb t c.
 
 (* ---------- Prop-level reading *)
 Definition op_matches (o : mop) (e : centry) : Prop :=
@@ -150,6 +173,13 @@ Definition ops_covered (t : list mfun) (c : cover) : Prop :=
     List.length (f_ops f) = List.length (cf_entries g) /\
     forall j o e, nth_error (f_ops f) j = Some o -> nth_error (cf_entries g) j = Some e ->
       op_matches o e /\ cov_ok c o e.
+
+(* callee closure, Prop level *)
+Definition calls_ok (t : list mfun) (c : cover) : Prop :=
+  (forall f n, In f t -> In n (f_calls f) ->
+     (exists g, In g t /\ base_name (f_name g) = n) \/ (exists r, In (n, r) (cv_callees c))) /\
+  (forall n r, In (n, r) (cv_callees c) ->
+     (exists f, In f t /\ In n (f_calls f)) /\ ~ (exists g, In g t /\ base_name (f_name g) = n)).
 
 (* counts used by the check's report *)
 Definition is_listed (e : centry) : bool := match c_cov e with Listed _ _ _ => true | Excluded _ _ => false end.
@@ -171,7 +201,7 @@ Fixpoint map_first_fun (h : mfun -> option mfun) (t : list mfun) : list mfun :=
 Definition on_first_op (h : mop -> list mop) (f : mfun) : option mfun :=
   match f_ops f with
   | [] => None
-  | o :: r => Some (mkF (f_listing f) (f_name f) (h o ++ r))
+  | o :: r => Some (mkF (f_listing f) (f_name f) (h o ++ r) (f_calls f))
   end.
 
 (* (a) the source gains an operation (the first one occurs twice) / loses one *)
@@ -182,7 +212,13 @@ Definition mut_retype : list mfun -> list mfun := map_first_fun (on_first_op (fu
 (* (c) the text of an expression changes *)
 Definition mut_retext : list mfun -> list mfun := map_first_fun (on_first_op (fun o => [mkOp (o_kind o) (o_ty o) (o_text o ++ " + 1") (o_occ o)])).
 (* a whole function is added to / removed from the table *)
-Definition mut_add_fun (t : list mfun) : list mfun := mkF "X.v" "f" [] :: t.
+Definition mut_add_fun (t : list mfun) : list mfun := mkF "X.v" "f" [] [] :: t.
+(* the first function of the table calls a helper of the repo that is neither in the table nor in callees_not_inlined *)
+Definition mut_add_call (t : list mfun) : list mfun :=
+  match t with
+  | [] => []
+  | f :: r => mkF (f_listing f) (f_name f) (f_ops f) ("newHelper" :: f_calls f) :: r
+  end.
 Definition mut_drop_fun (t : list mfun) : list mfun := tl t.
 
 Fixpoint map_first_cfun (h : cfun -> option cfun) (t : list cfun) : list cfun :=
@@ -207,7 +243,8 @@ Fixpoint first_listed (h : string -> nat -> cty -> cov) (l : list centry) : opti
 Definition mut_cover (h : string -> nat -> cty -> cov) (c : cover) : cover :=
   mkCover (cv_samples c)
     (map_first_cfun (fun g => match first_listed h (cf_entries g) with
-                              | Some l => Some (mkCF (cf_listing g) (cf_name g) l) | None => None end) (cv_funs c)).
+                              | Some l => Some (mkCF (cf_listing g) (cf_name g) l) | None => None end) (cv_funs c))
+    (cv_callees c).
 
 Definition mut_cover_type : cover -> cover := mut_cover (fun fn pos ty => Listed fn pos (flip_cty ty)).
 Definition mut_cover_fn : cover -> cover := mut_cover (fun fn pos ty => Listed (fn ++ "_") pos ty).
@@ -217,4 +254,12 @@ Definition mut_cover_stale (c : cover) : cover :=
   mkCover (cv_samples c)
     (map_first_cfun (fun g => match cf_entries g with
                               | [] => None
-                              | e :: r => Some (mkCF (cf_listing g) (cf_name g) (e :: e :: r)) end) (cv_funs c)).
+                              | e :: r => Some (mkCF (cf_listing g) (cf_name g) (e :: e :: r)) end) (cv_funs c))
+    (cv_callees c).
+(* callees_not_inlined loses its first entry / gains an entry that nothing calls / names a function of the table *)
+Definition mut_cover_drop_callee (c : cover) : cover := mkCover (cv_samples c) (cv_funs c) (tl (cv_callees c)).
+Definition mut_cover_stale_callee (c : cover) : cover :=
+  mkCover (cv_samples c) (cv_funs c) (("nobody::callsThis", "stale") :: cv_callees c).
+Definition mut_cover_callee_in_table (t : list mfun) (c : cover) : cover :=
+  mkCover (cv_samples c) (cv_funs c)
+    (match t with f :: _ => (base_name (f_name f), "in the table") :: cv_callees c | [] => cv_callees c end).
